@@ -38,27 +38,35 @@ def replay(ctx, cx, h=None):
         r = steps[-1]; lo = [s for s in r['sent'] if s['type'] == '5']; rr = [s for s in r['sent'] if s['type'] == '2']
         bad = r['thrown'] or lo or r['shutdown'] or r['state'] == 2 or (g > 0 and not (len(rr) == 1 and int(rr[0].get('7', -1)) == exp))
         return bool(bad), 'native: Logon %d while expecting %d (%s) -> %s' % (exp + g, exp, 'acceptor' if role == 0 else 'initiator', raw[-260:])
-    # k-step history: re-run the generator's concrete choices natively
+    # k-step history: re-run the generator's concrete choices natively and re-evaluate the oracle on the native observations
     n = int(c.get('cx_n', 1)); seqs = c.get('cx_seq', []); types = c.get('cx_type', [])
+    def at(key, i): v = c.get(key, []); return int(v[i]) if i < len(v) else 0
     cmds = ['init,role=I,sender=S,target=T,state=1,recv=%d,send=7,enforce=1,active=1' % n]
-    hist = []
+    hist = []; app_sent = set(); cnext = n
     for i, (sq, ty) in enumerate(zip(seqs, types)):
         ty = chr(int(ty)) if int(ty) else 'D'; sq = int(sq)
         if not sq: break
-        mode = int((c.get('cx_replaymode', []) + [0] * 8)[i])
+        mode = at('cx_replaymode', i)
         if mode == 1: cmds.append('msg,type=D,seq=%d,pd=Y,st=%d,ost=%d' % (sq, 100 + i * 10, 99 + i * 10))
-        elif mode == 2:
-            nxt = int((c.get('cx_nsn', []) + [0] * 8)[i]) or sq + 1
-            cmds.append('msg,type=4,seq=%d,pd=Y,gapfill=Y,nsn=%d,st=%d,ost=%d' % (sq, nxt, 100 + i * 10, 99 + i * 10))
-        else: cmds.append('msg,type=%s,seq=%d,st=%d' % (ty, sq, 100 + i * 10))
+        elif mode == 2: cmds.append('msg,type=4,seq=%d,pd=Y,gapfill=Y,nsn=%d,st=%d,ost=%d' % (sq, at('cx_nsn', i) or sq + 1, 100 + i * 10, 99 + i * 10))
+        else:
+            for q, lost in enumerate(range(cnext, sq)):            # numbers the counterparty sent while we were not listening
+                if (at('cx_lostapp', i) >> q) & 1: app_sent.add(lost)
+            if ty == 'D': app_sent.add(sq)
+            cnext = sq + 1
+            cmds.append('msg,type=%s,seq=%d,st=%d' % (ty, sq, 100 + i * 10))
         hist.append((ty, sq, mode))
     steps, raw = sessin.run_steps(ctx, cmds)
-    if not steps: return False, 'no output: ' + raw
-    bad = any(s['thrown'] or s['shutdown'] or any(o['type'] == '5' for o in s['sent']) for s in steps)
-    # after the last step the counterparty's next number is max(seq)+1 when it has caught up (no replay pending)
-    top = max(sq for _, sq, _ in hist) + 1
+    if len(steps) != len(hist): return False, 'no output: ' + raw
+    bad = []; pend_from = pend_to = 0
+    for (ty, sq, mode), s in zip(hist, steps):
+        if s['thrown'] or s['shutdown'] or any(o['type'] == '5' for o in s['sent']): bad.append('session terminated at MsgSeqNum %d' % sq); break
+        if mode == 1: pend_from = sq + 1
+        if mode == 2: pend_from = int([x for x in cmds if ('seq=%d,' % sq) in x and 'nsn=' in x][0].split('nsn=')[1].split(',')[0])
+        for o in s['sent']:
+            if o['type'] == '2': pend_from, pend_to = int(o.get('7', 0)), cnext
     delivered = set(sum([s['delivered'] for s in steps], []))
-    app_sent = set(sq for ty, sq, _ in hist if ty == 'D')
-    caught_up = hist[-1][1] == top - 1
-    if caught_up: bad = bad or steps[-1]['recv'] != top or not app_sent <= delivered
-    return bool(bad), 'native history %s -> expected inbound number %d (counterparty next %d), delivered %s, app sent %s | %s' % (hist, steps[-1]['recv'], top, sorted(delivered), sorted(app_sent), raw[-200:])
+    if not bad and pend_from >= pend_to:          # the counterparty has caught up
+        if steps[-1]['recv'] != cnext: bad.append('expected inbound number %d but the counterparty continues with %d' % (steps[-1]['recv'], cnext))
+        if not app_sent <= delivered: bad.append('application messages %s never delivered' % sorted(app_sent - delivered))
+    return bool(bad), 'native history (type, MsgSeqNum, 0 new/1 PossDup resend/2 GapFill) %s from expected %d: %s | delivered %s | %s' % (hist, n, '; '.join(bad) or 'conforms', sorted(delivered), raw[-160:])
